@@ -36,6 +36,9 @@ func genC07(t *rapid.T) c07Case {
 	}
 	c.Idle = Sample{RTT: genRTT().Draw(t, "idleRTT"), Inf: rapid.IntRange(0, 1<<20).Draw(t, "idleInf")}
 	c.RunRTT = rapid.OneOf(rapid.Int64Range(1, 1000), rapid.Int64Range(1, 10_000_000_000)).Draw(t, "runRTT")
+	if (c.Cfg.Algo == "gradient2" || c.Cfg.Algo == "aimd") && rapid.IntRange(0, 5).Draw(t, "runRTT0") == 0 {
+		c.RunRTT = 0 // a coarse clock: the constant RTT of the healthy run is 0 (RTT >= 0 is the stated domain)
+	}
 	c.AIMDN = rapid.IntRange(1, 30).Draw(t, "aimdN")
 	return c
 }
@@ -186,6 +189,9 @@ func runC07(_ *testing.T, c c07Case) kit.Outcome {
 		labelUse(&out, float64(steps)/bound, algo)
 	}
 	out.NonTrivial = sawDrop && sawZero && gap >= 3
+	if c.RunRTT == 0 {
+		out.Labels = append(out.Labels, "run-rtt0")
+	}
 	if gap >= 3 {
 		out.Labels = append(out.Labels, "run>=3-below-ceiling")
 	}
